@@ -379,7 +379,14 @@ pub fn agent_run(ctx: &mut Ctx, hist: &History, w: &World, junos: Junos, irr_ref
         let _off = ChaosOff;
         // a panic of the agent outside its spawned tasks ends the process: for the oracles that is a
         // run that failed without a clean error ("the agent panicked: ...")
-        let r = match std::panic::catch_unwind(std::panic::AssertUnwindSafe(|| hist.rt.block_on(async move { agent::verif::run_once(conn, "irrd.sim", 43, &instance).await }))) {
+        let r = match std::panic::catch_unwind(std::panic::AssertUnwindSafe(|| hist.rt.block_on(async move {
+            // on the paused clock a run that waits for something that never comes reaches this
+            // deadline at once (the clock jumps when every task is idle): a hang is a failed run
+            match tokio::time::timeout(std::time::Duration::from_secs(86_400), agent::verif::run_once(conn, "irrd.sim", 43, &instance)).await {
+                Ok(r) => r,
+                Err(_) => Err(anyhow::anyhow!("the run was still waiting after one simulated day (it would hang for ever)")),
+            }
+        }))) {
             Ok(r) => r,
             Err(p) => {
                 let msg = p.downcast_ref::<String>().cloned().or_else(|| p.downcast_ref::<&str>().map(|s| (*s).to_string())).unwrap_or_default();
